@@ -2,11 +2,12 @@ from harness import hist
 
 META = {
     'property_id': 'C12', 'lean_module': 'Placement.Props.C12', 'category': 'proof',
-    'text': 'Lean 4 theorems: "consumer row exists iff it holds an allocation" is preserved by every completed request of the '
-            'model outside two recorded defect patterns (proved to break it by concrete witnesses), creation/update/removal '
-            'facts; tied to the code by differential histories over all four microversion bands; monitor on the real tables.',
-    'level_note': 'trusted: Lean kernel; correspondence sampled; theorem is _partial exactly on the patterns listed in KNOWN_FINDINGS.json.',
-    'technique': 'Lean 4 proof (invariant by induction over requests, witnesses by decide) + model/implementation correspondence',
+    'text': 'Lean 4 theorems: "consumer row exists iff it holds an allocation" is an invariant of every completed request of the '
+            'handler model (all states, all well-formed requests; two defects of the original code were repaired by fix: commits '
+            'and the model mirrors the repaired code), creation/update/removal/re-creation facts; tied to the code by '
+            'differential histories over all four microversion bands; monitor on the real tables.',
+    'level_note': 'trusted: Lean kernel; correspondence sampled; requests well-formed as JSON objects allow (no duplicate consumer / (provider, class) keys).',
+    'technique': 'Lean 4 proof (invariant by induction over requests) + model/implementation correspondence',
     'design_ref': 'DESIGN.md section 5, C12',
 }
 
